@@ -493,7 +493,7 @@ func (p *parser) parsePrimary() (Expr, error) {
 // ---------- file parser ----------
 
 var clauseKW = map[string]bool{"requires": true, "ensures": true, "invariant": true, "assert": true, "let": true,
-	"modifies": true, "sets": true, "pure": true, "inline": true, "trusted": true, "bridge": true, "assume": true, "var": true, "params": true, "readonly": true}
+	"modifies": true, "sets": true, "pure": true, "inline": true, "trusted": true, "bridge": true, "assume": true, "var": true, "params": true, "readonly": true, "protects": true}
 var blockKW = map[string]bool{"func": true, "interface": true, "spec": true, "ghost": true, "lemma": true, "axiom": true, "pureiface": true, "guards": true, "wiring": true, "abstraction": true, "implements": true}
 
 var labelRe = regexp.MustCompile(`^\[(~?)(C[0-9]+\.[A-Za-z0-9_\-]+)\]\s*`)
